@@ -39,3 +39,37 @@ func ZZ_C19_T3_FanCommandCalls() {
 		zzv.Assert(err != nil, "T3.failed_command_is_an_error")
 	}
 }
+
+// T5 (history, fan side): a second call on the same CmdFan after a first call with any outcome.
+func ZZ_C19_T5_FanCallAfterAnyOutcome() {
+	zzv.RealCommands()
+	tool := zzv.TempDir("exec") + "/fanctl"
+	zzv.ExecScenario(tool, zzv.Choice("firstScenario", 7), zzCmdTexts[zzv.Choice("firstText", len(zzCmdTexts))])
+	fan := &CmdFan{Config: configuration.FanConfig{ID: "zzfan", Cmd: &configuration.CmdFanConfig{
+		SetPwm: &configuration.ExecConfig{Exec: tool, Args: []string{"%pwm%"}},
+		GetPwm: &configuration.ExecConfig{Exec: tool},
+		GetRpm: &configuration.ExecConfig{Exec: tool},
+	}}}
+	first := zzv.Choice("firstCall", 3)
+	switch first {
+	case 0:
+		_ = fan.SetPwm(100)
+	case 1:
+		_, _ = fan.GetPwm()
+	default:
+		_, _ = fan.GetRpm()
+	}
+	zzv.ExecScenario(tool, zzv.ExecOK, "120")
+	var err error
+	v := 120
+	switch zzv.Choice("secondCall", 3) {
+	case 0:
+		err = fan.SetPwm(120)
+	case 1:
+		v, err = fan.GetPwm()
+	default:
+		v, err = fan.GetRpm()
+	}
+	zzv.Assert(err == nil, "T5.healthy_call_after_any_outcome_succeeds")
+	zzv.Assert(v == 120, "T5.healthy_call_reads_the_value")
+}
